@@ -9,6 +9,7 @@ import (
 	"sort"
 	"strings"
 
+	"github.com/rigochain/rigo-go/libs/verifhook"
 	rcrypto "github.com/rigochain/rigo-go/types/crypto"
 	abcitypes "github.com/tendermint/tendermint/abci/types"
 )
@@ -41,6 +42,8 @@ type BlockObs struct {
 	AppHash     []byte
 	CommitPanic string
 	Frozen      []StakeView // committed frozen stakes right after the commit (accessor)
+	TreeOps     []TreeOp    // tree operations of the commit, per ledger, in execution order (hook)
+	Writes      []string    // durable writes of the commit in order (hook)
 }
 
 func reasonOf(ty int32, log string) int {
@@ -179,7 +182,24 @@ func (n *Node) End(h int64) (ups []ValUp, evts []string, panicMsg string) {
 	return
 }
 
+// TreeOps / DurableWrites of the last Commit, as reported by the verif hooks
+type TreeOp struct {
+	Ledger string
+	Set    bool
+	Key    []byte
+}
+
+var (
+	lastTreeOps []TreeOp
+	lastWrites  []string
+)
+
 func (n *Node) Commit() (hash []byte, panicMsg string) {
+	lastTreeOps, lastWrites = nil, nil
+	verifhook.SetCallbacks(func(ledger string, set bool, key []byte) {
+		lastTreeOps = append(lastTreeOps, TreeOp{ledger, set, append([]byte(nil), key...)})
+	}, func(store string) { lastWrites = append(lastWrites, store) })
+	defer verifhook.SetCallbacks(nil, nil)
 	err := guard(func() {
 		r := n.App.Commit()
 		hash = r.Data
@@ -215,6 +235,7 @@ func (n *Node) RunBlock(b *BlockSpec) *BlockObs {
 		return o
 	}
 	o.AppHash, o.CommitPanic = n.Commit()
+	o.TreeOps, o.Writes = lastTreeOps, lastWrites
 	if o.CommitPanic == "" {
 		o.Frozen = n.FrozenStakes()
 	}
